@@ -39,14 +39,14 @@ RULE = (
 )
 STATE_MEASURE = "distinct CSP descriptions received by the peer (SHA-256 of the text)"
 COMPONENTS = {
-    "real": ["cspuz.backend.sugar_like (all five backends)", "cspuz.backend._subproc.run_subprocess (non-timeout path)", "cspuz.solver.Solver.find_answer/solve", "cspuz.expr / constraints (tree construction)"],
-    "stub": ["external solver process (subprocess.run/Popen fake)", "pycsugar / enigma_csp / cspuz_core modules (fakes in sys.modules)", "Sugar-dialect reader + evaluator written from sugar_extension/CspuzSugarInterface.java"],
+    "real": ["cspuz.backend.sugar_like (all five backends)", "cspuz.backend._subproc.run_subprocess (plain path and Popen + deadline path)", "cspuz.solver.Solver.find_answer/solve", "cspuz.expr / constraints (tree construction)"],
+    "stub": ["external solver process (subprocess.run/Popen fake, may stall until the deadline)", "psutil (fake)", "pycsugar / enigma_csp / cspuz_core modules (fakes in sys.modules)", "Sugar-dialect reader + evaluator written from sugar_extension/CspuzSugarInterface.java"],
 }
 ASSUMPTIONS = [
     "the stub's reading of the wire protocol (Sugar CSP syntax, '#' key line, reply formats of CspuzSugarInterface.java) equals the real solvers'; Sugar, csugar and cspuz_core cannot be installed offline",
     "text is compared by denotation over all assignments of the declared domains, never by spelling, order or whitespace",
     "only replies the Java reference could print are sent (LF line ends, every declared variable listed in answer-finder mode, only answer keys listed in deduction mode)",
-    "out of scope: the solver_timeout + psutil + SIGTERM path of run_subprocess (no listed property speaks about it)",
+    "the Popen + deadline path of run_subprocess is exercised with a fake psutil (the package is not installed); on an injected stall only 'the timeout reaches the caller and no answer is made up' is required - which processes get SIGTERM is not part of any listed property",
 ]
 
 NAMES = ["sugar", "sugar_extended", "csugar", "enigma_csp", "cspuz_core"]
@@ -87,7 +87,9 @@ def generate(rng, tier, index):
     while refsem.domain_product(decls) > 1024:
         decls.pop()
     sc["decls"] = decls
-    sc["timeout"] = rng.choice([None, None, None, 5.0])  # config.solver_timeout; psutil is absent -> warning + normal path
+    sc["timeout"] = rng.choice([None, None, None, 5.0])  # config.solver_timeout; without psutil -> warning + normal path
+    sc["psutil"] = rng.random() < 0.5  # a (fake) psutil makes the Popen + deadline path of run_subprocess reachable
+    sc["stall"] = rng.choice([None, None, None, 1, 2]) if (sc["timeout"] and sc["psutil"] and mode == "honest") else None
     sc["shadow"] = rng.random() < 0.25  # a second Solver on the same backend, used alternately
     if direct:
         span = rng.choice([3 * len(decls) + 3, 3 * len(decls) + 3, 150, 1200])
@@ -347,13 +349,16 @@ def run(sc) -> RunResult:
         shadow = _Shadow(cspuz, E, direct, backend, sugar_like)
         res.hit("perturb:shadow_session_interleaved")
     try:
-        with peers.installed_peer(peer), warnings.catch_warnings():
+        with peers.installed_peer(peer, psutil=bool(sc.get("psutil"))) as fake_sub, warnings.catch_warnings():
             warnings.simplefilter("ignore")
+            if sc.get("timeout") and sc.get("psutil"):
+                res.hit("knob:popen_deadline_path")
+            fake_sub.stall_on_call = sc.get("stall")
             for n_op, op in enumerate(sc["ops"]):
                 k = op["op"]
                 res.steps += 1
                 if shadow is not None and k in ("find_answer", "solve"):
-                    if not shadow.step(res, sc, peer, n_op, tag):
+                    if not shadow.step(res, sc, peer, n_op, tag, fake_sub.TimeoutExpired):
                         continue
                 try:
                     if k == "ensure":
@@ -377,6 +382,7 @@ def run(sc) -> RunResult:
                         res.hit("perturb:sol_scribble")
                     elif k in ("find_answer", "solve"):
                         n_before = len(peer.received)
+                        n_stalls_before = fake_sub.stalls_fired
                         bound = 8 + 3 * sum((2 if decls[i]["t"] == "b" else decls[i]["hi"] - decls[i]["lo"] + 1) for i in keys)
                         peer.calls = 0
                         peer.cap = bound if k == "solve" else 4
@@ -406,6 +412,14 @@ def run(sc) -> RunResult:
                                 r = solver.solve(backend=backend)
                         except peers.NoReturnWithinBound as e:
                             res.violate("C03/e2e-no-return-within-bound", f"op#{n_op} {k}: {e} [{tag}]")
+                            continue
+                        except fake_sub.TimeoutExpired:
+                            # the injected stall: the caller is told, no answer is made up
+                            res.hit("stall:timeout_propagated_to_caller")
+                            res.log("op", n_op, k, "timeout")
+                            continue
+                        if fake_sub.stalls_fired > n_stalls_before:
+                            res.violate("C03/wrong-return-value", f"op#{n_op} {k} returned {r!r} although the external solver never replied (deadline passed) [{tag}]")
                             continue
                         sols = [v.sol for v in vars_]
                         calls = peer.received[n_before:]
@@ -458,12 +472,15 @@ class _Shadow:
         self.solver.ensure([b.build(c) for c in self.CONSTRAINTS])
         self.M = refsem.models(self.DECLS, self.CONSTRAINTS)
 
-    def step(self, res, sc, peer, n_op, tag):
+    def step(self, res, sc, peer, n_op, tag, timeout_exc=()):
         n_before = len(peer.received)
         peer.calls = 0
         peer.cap = 2
         try:
             r = self.solver.find_answer(backend=self.backend)
+        except timeout_exc:
+            res.hit("stall:timeout_propagated_to_caller")
+            return True  # the injected stall hit the shadow session; the main session goes on
         except Exception as e:
             res.violate("C03/unexpected-exception", f"op#{n_op} shadow session find_answer raised {type(e).__name__}: {str(e)[:160]} [{tag}]")
             return False
